@@ -251,6 +251,10 @@ fn main() {
                     writeln!(m, "{}", refpeg::shape::assertions(&gi, &c.derives)).unwrap();
                 }
             }
+            if prop == "C12" {
+                // what the markers of a field denote is visible in the generated types only: exact-type assertions
+                writeln!(m, "{}", refpeg::shape::assertions(&c.grammar, &c.derives)).unwrap();
+            }
             if prop == "C03" {
                 // rustc is the judge: exact-type assertions computed from the documented mapping
                 writeln!(m, "{}", refpeg::shape::assertions(&c.grammar, &c.derives)).unwrap();
